@@ -62,6 +62,8 @@ func replayDriveOne(cfg Config, v *Violation) int {
 	} else if optVal(v.X, "big", "") == "2" {
 		w.lcBroken = true
 		w.runSparse(maxN)
+	} else if optVal(v.X, "big", "") == "3" {
+		w.runLightChain(maxN)
 	} else {
 		w.run(maxN, blocks)
 	}
@@ -146,6 +148,7 @@ type scriptedBlock struct {
 	d     []int
 	k     int
 	rem   func(slot int) bool
+	lcRem func(slot int) bool // additions the light client remembers in any case
 	light bool
 }
 
@@ -191,6 +194,8 @@ func runDrive(cfg Config, in io.Reader, extra string, workers int) int {
 		} else if optVal(extra, "big", "") == "2" {
 			w.lcBroken = true
 			w.runSparse(maxN)
+		} else if optVal(extra, "big", "") == "3" {
+			w.runLightChain(maxN)
 		} else {
 			w.run(maxN, blocks)
 		}
@@ -485,6 +490,9 @@ func (w *driveWorld) block(maxN int) {
 		take := w.rng.Intn(3) == 0
 		if w.remHigh {
 			take = !take // the light client remembers two additions out of three
+		}
+		if sc != nil && sc.lcRem != nil && sc.lcRem(int(w.n)+i) {
+			take = true
 		}
 		if take {
 			rem = append(rem, uint32(i))
